@@ -93,6 +93,7 @@ def install() -> None:
             ("http2", {"h2": H2, "time": _ClockShim}),
             ("socks_proxy", {"socksio": SOCKSIO, "default_ssl_context": default_ssl_context}),
             ("connection", {"default_ssl_context": default_ssl_context}),
+            ("connection_pool", {"time": _ClockShim}),
             ("http_proxy", {"default_ssl_context": default_ssl_context}),
         ):
             mod = importlib.import_module(f"httpcore.{flavour}.{name}")
